@@ -43,7 +43,7 @@ static const char * const KSI_HASHALG_SHA2_512_names[] = { "SHA-512", "SHA512", 
 static const char * const KSI_HASHALG_SHA3_224_names[] = { "SHA3-224", ""};
 static const char * const KSI_HASHALG_SHA3_256_names[] = { "SHA3-256", ""};
 static const char * const KSI_HASHALG_SHA3_384_names[] = { "SHA3-384", ""};
-static const char * const KSI_HASHALG_SHA3_512_names[] = { "SHA3-512"};
+static const char * const KSI_HASHALG_SHA3_512_names[] = { "SHA3-512", ""};
 static const char * const KSI_HASHALG_SM3_names[] = { "SM-3", "SM3", ""};
 
 
